@@ -29,4 +29,5 @@ echo "== /verif check $PROP against the change"
 git -C /repo apply "$SRC/patch.diff" || exit 2
 (cd /verif && ./check $PROP --tier quick > /tmp/sc_out_$NAME.txt 2>&1; echo "exit=$?" >> /tmp/sc_out_$NAME.txt)
 git -C /repo checkout -- .
+git -C /verif checkout -- evidence 2>/dev/null   # the run against the changed tree rewrote the evidence files: restore the committed ones
 grep -E "^  failed|^  undischarged|^  missing|^property=|^exit=" /tmp/sc_out_$NAME.txt | cut -c1-220
